@@ -96,8 +96,12 @@ def decode_callargs(cx):
     sites = decode_sites(cx, fn)
     L = init_locals(cx, fn, sites)
     common = ['buf', 'datatype', 'num_events', 'param_bit_widths', 'param_ranges', 'big_endian']
-    kws = [{k.arg: k.value for k in s.keywords} for s in sites]
-    ok = all(not s.args for s in sites) and all(set(k) == set(common) | {'begin', 'end'} for k in kws)
+    allp = common + ['begin', 'end']
+    # arguments bound by keyword or, through the decoder's own parameter list, by position
+    kws = [{a: kwarg(s, a) for a in allp if kwarg(s, a) is not None} for s in sites]
+    ok = all(set(k) == set(allp) for k in kws) and all(len(s.args) + len(s.keywords) == len(allp) and
+                                                        not any(isinstance(a, ast.Starred) for a in s.args) and
+                                                        all(k.arg for k in s.keywords) for s in sites)
     fn.ob('CALLARGS', 'both decode call sites pass the full argument set by keyword', ok, sites[0], key='kwset')
     if not ok:
         return fn
